@@ -368,8 +368,29 @@ def discharge(ob: Obligation, timeout_ms=20000, extra_axioms=(), use_cvc5=True):
                     break
         except z3.Z3Exception:
             pass
+    if ob.status == "failed" and _mentions_partial_theory(hyps + [goal]):
+        # the compaction functions of boolean-mask gathers (rank_/sel_) carry instance axioms only: a model over them need
+        # not correspond to any array, so `sat` is not a refutation; the obligation stays undecided (stand-in decides)
+        ob.status = "unknown"
+        ob.reason = "counter-model over partially axiomatised mask-compaction functions (may be spurious)"
     ob.time_s = time.time() - t0
     return ob
+
+
+def _mentions_partial_theory(terms):
+    seen = set()
+
+    def walk(t):
+        if t.get_id() in seen:
+            return False
+        seen.add(t.get_id())
+        if z3.is_app(t):
+            d = t.decl()
+            if d.kind() == z3.Z3_OP_UNINTERPRETED and t.num_args() > 0 and d.name().startswith(("sel_", "rank_", "pos_", "sorted_", "sortperm_")):
+                return True
+            return any(walk(c) for c in t.children())
+        return False
+    return any(walk(t) for t in terms if not isinstance(t, bool))
 
 
 def _nonlinear_vars(terms):
